@@ -171,3 +171,84 @@ var vpAlnumTab = func() (t [256]bool) {
 	}
 	return
 }()
+
+// vpStdJSONString is the engine's model of encoding/json.Marshal(string): the standard JSON string
+// encoder with HTML escaping (transcribed from encoding/json's appendString). The engine calls it in
+// place of the reflection-based json.Marshal; natively the real function runs, so any difference
+// shows up as a conformance disagreement.
+func vpStdJSONString(s string) []byte {
+	const hexd = "0123456789abcdef"
+	dst := []byte{'"'}
+	for i := 0; i < len(s); {
+		b := s[i]
+		if b < 0x80 {
+			if b >= 0x20 && b != '"' && b != '\\' && b != '<' && b != '>' && b != '&' {
+				dst = append(dst, b)
+				i++
+				continue
+			}
+			switch b {
+			case '\\', '"':
+				dst = append(dst, '\\', b)
+			case '\b':
+				dst = append(dst, '\\', 'b')
+			case '\f':
+				dst = append(dst, '\\', 'f')
+			case '\n':
+				dst = append(dst, '\\', 'n')
+			case '\r':
+				dst = append(dst, '\\', 'r')
+			case '\t':
+				dst = append(dst, '\\', 't')
+			default:
+				dst = append(dst, '\\', 'u', '0', '0', hexd[b>>4], hexd[b&0xF])
+			}
+			i++
+			continue
+		}
+		// multi-byte: copy valid sequences, replace invalid bytes by U+FFFD, escape U+2028/9
+		n := len(s) - i
+		if n > 4 {
+			n = 4
+		}
+		r, size := vpDecodeRune(s[i : i+n])
+		if r == 0xFFFD && size == 1 {
+			dst = append(dst, '\\', 'u', 'f', 'f', 'f', 'd')
+			i += size
+			continue
+		}
+		if r == 0x2028 || r == 0x2029 {
+			dst = append(dst, '\\', 'u', '2', '0', '2', hexd[r&0xF])
+			i += size
+			continue
+		}
+		dst = append(dst, s[i:i+size]...)
+		i += size
+	}
+	return append(dst, '"')
+}
+
+func vpDecodeRune(s string) (rune, int) {
+	for i, r := range s {
+		if i == 0 {
+			if r == 0xFFFD {
+				// either a real U+FFFD (3 bytes) or an invalid byte (width 1)
+				if len(s) >= 3 && s[0] == 0xEF && s[1] == 0xBF && s[2] == 0xBD {
+					return r, 3
+				}
+				return r, 1
+			}
+			n := 1
+			switch {
+			case r >= 0x10000:
+				n = 4
+			case r >= 0x800:
+				n = 3
+			case r >= 0x80:
+				n = 2
+			}
+			return r, n
+		}
+	}
+	return 0xFFFD, 1
+}
